@@ -195,13 +195,14 @@ theorem processFrames_trunc (oks : G → P → Option R) (score : P → R) (thr 
   | [] => ⟨List.Sublist.refl _, rfl⟩
   | ⟨gts, none⟩ :: fs => by
     have ih := processFrames_trunc oks score thr k fs
-    show (processFrames oks score thr (⟨gts, none⟩ :: truncFrames score k fs)).1.Sublist _ ∧ _
-    rw [processFrames_cons_none, processFrames_cons_none]
+    have e : truncFrames score k (⟨gts, none⟩ :: fs) = ⟨gts, none⟩ :: truncFrames score k fs := rfl
+    rw [e, processFrames_cons_none, processFrames_cons_none]
     exact ih
   | ⟨gts, some prs⟩ :: fs => by
     have ih := processFrames_trunc oks score thr k fs
-    show (processFrames oks score thr (⟨gts, some ((sortDesc score prs).take k)⟩ :: truncFrames score k fs)).1.Sublist _ ∧ _
-    rw [processFrames_cons_some, processFrames_cons_some]
+    have e : truncFrames score k (⟨gts, some prs⟩ :: fs) =
+        ⟨gts, some ((sortDesc score prs).take k)⟩ :: truncFrames score k fs := rfl
+    rw [e, processFrames_cons_some, processFrames_cons_some]
     refine ⟨(matchInstances_trunc_prefix oks score thr gts prs k).sublist.append ih.1, ?_⟩
     have h1 := matchInstances_count oks score thr gts prs
     have h2 := matchInstances_count oks score thr gts ((sortDesc score prs).take k)
